@@ -143,3 +143,18 @@ def register(claim):
         'arbitrary rest poses; multi-body contact averaging; conservation to round-off as a number.',
         'algebraic value numbering of the whole step, decided by random interpretation in GF(p)',
         'DESIGN.md §3 C04')
+
+  claim('C15', 'other',
+        'Static equivalence with the stated reference transition: EpisodeWrapper, AutoResetWrapper, '
+        'EvalWrapper and the composite training.wrap (batch of two) are abstractly interpreted from '
+        'their AST over a scripted symbolic environment whose observations, rewards, states and '
+        'termination flags are uninterpreted functions of the previous observation and the action; '
+        'reward sum over action_repeat 1-3 chained sub-steps, time-limit done/truncation with '
+        'symbolic episode_length, counter restart, snapshot restore exactly on done, first-episode-'
+        'only evaluation metrics, wrapper order, and acting\'s transition/key chaining all equal the '
+        'reference as normal forms -- for every termination pattern at once.',
+        'Trusted: python ast, AVN normal form, lax.scan/where/tree_map semantics, reference '
+        'transition B.4.  The history-level statement follows from the per-step transition by the '
+        'induction in specs/c15.md; it is not enumerated.',
+        'algebraic value numbering over a scripted symbolic environment vs reference transition',
+        'DESIGN.md §3 C15')
